@@ -368,7 +368,7 @@ def judge_c02(x, meta, mscript, attrs, stages):
 
 
 # ---------------------------------------------------------------------------------------------- exploration driver
-def run_one(col, which, scn, prefix, remaining, depth_first_budget=None):
+def run_one(col, which, scn, prefix, remaining, boundary_only=False):
     """Executes one schedule (prefix then canonical), judges it and recursively explores deviations after the prefix."""
     from verif.vsched import harness as h
     hs, meta, mscript, attrs, stages = build(scn)
@@ -399,23 +399,36 @@ def run_one(col, which, scn, prefix, remaining, depth_first_budget=None):
     if remaining > 0:
         for i in range(len(prefix), len(x.points)):
             for alt in range(1, x.points[i]):
-                run_one(col, which, scn, x.choices[:i] + [alt], remaining - 1)
+                if boundary_only and not is_boundary(x.alts[i][alt]):
+                    continue
+                run_one(col, which, scn, x.choices[:i] + [alt], remaining - 1, boundary_only)
     return x
+
+
+BOUNDARY = ('rx:Controller', 'main', 'exit:', 'tick', 'thread:')
+
+
+def is_boundary(label):
+    """Deviations restricted to boundary actions: controller-pool callbacks, main-loop passes, task exits, timer ticks,
+    monitor-thread steps (used for deviation bound 2, see DESIGN §2.1)."""
+    return label.startswith(BOUNDARY)
 
 
 def worker_canon(col, item, tier, seed):
     which, scn = item
     x = run_one(col, which, scn, [], 0)
-    col.payload.append((scn['id'], x.points))
+    col.payload.append((scn['id'], (x.points, x.alts)))
     if len(col.samples) < 1:
         col.sample({'scenario': scn, 'choices': [], 'schedule_labels_head': x.labels[:12], 'final': {n: f['state'] for n, f in x.final.items()}})
 
 
 def worker_dev(col, item, tier, seed):
-    which, scn, canon_choices_len, positions, points, remaining = item
+    which, scn, alts, positions, points, remaining = item
     for i in positions:
         for alt in range(1, points[i]):
-            run_one(col, which, scn, [0] * i + [alt], remaining)
+            if remaining > 0 and not is_boundary(alts[i][alt]):
+                continue
+            run_one(col, which, scn, [0] * i + [alt], remaining, boundary_only=remaining > 0)
 
 
 def select_deep(scns, tier, seed):
@@ -448,6 +461,7 @@ def run(ctx, which):
     if only:
         want = json.loads(only)
         scns = [s for s in scns if [s['wf'], s['labels']] in want and not s['dur']]
+        ctx.outcome('development aid VERIF_E1_ONLY')
     ctx.count('scenarios', len(scns))
     ctx.pmap('verif.vsched.ctl', 'worker_canon', [(which, s) for s in scns], maxtasksperchild=40)
     points = dict(ctx.payload)
@@ -455,11 +469,22 @@ def run(ctx, which):
     ctx.count('scenarios_with_all_1_deviation_schedules', len(deep))
     items = []
     for s in deep:
-        pts = points[s['id']]
+        pts, alts = points[s['id']]
         step = max(1, len(pts) // 24)
         for lo in range(0, len(pts), step):
-            items.append((which, s, len(pts), list(range(lo, min(len(pts), lo + step))), pts, 0))
+            items.append((which, s, None, list(range(lo, min(len(pts), lo + step))), pts, 0))
     ctx.pmap('verif.vsched.ctl', 'worker_dev', items, maxtasksperchild=4)
+    if ctx.tier == 'thorough':
+        # deviation bound 2 restricted to boundary actions, for the smallest workflows
+        d2 = [s for s in deep if s['wf'] == 'chain2' and (not s['labels'] or s['labels'] == {'stage0.A': 'KF'})][:2]
+        ctx.count('scenarios_with_2_deviations_at_boundary_actions', len(d2))
+        items = []
+        for s in d2:
+            pts, alts = points[s['id']]
+            for i in range(len(pts)):
+                if any(is_boundary(a) for a in alts[i][1:]):
+                    items.append((which, s, alts, [i], pts, 1))
+        ctx.pmap('verif.vsched.ctl', 'worker_dev', items, maxtasksperchild=2)
     ctx.count('deviation_bound_completed', 1)
     ctx.payload = []
 
